@@ -27,7 +27,11 @@ def run_checks(repo, out, props):
     fired = {}
     env = dict(os.environ, HLV_REPO=repo, HLV_OUT=out)
     for p in props:
-        r = subprocess.run([os.path.join(VERIF, "hlv"), "check", p], env=env, stdout=subprocess.PIPE, stderr=subprocess.PIPE, text=True)
+        try:
+            r = subprocess.run([os.path.join(VERIF, "hlv"), "check", p], env=env, stdout=subprocess.PIPE, stderr=subprocess.PIPE, text=True, timeout=900)
+        except subprocess.TimeoutExpired:
+            fired[p] = {"rc": 99, "rules": [], "tail": "timeout"}
+            continue
         rules = []
         for ln in r.stdout.split("\n"):
             if ln.startswith("VIOLATION"):
